@@ -111,6 +111,8 @@ fn poll_once<T>(
 
 #[derive(Default)]
 struct Ctr {
+    task_probes: u64,
+    task_polls: u64,
     seqs: u64,
     seqs_small_budget: u64,
     seqs_nontrivial: u64,
@@ -231,6 +233,86 @@ fn fmt_op(op: &Op) -> String {
 
 fn fmt_state(m: &Model, rw: u64, ww: u64) -> String {
     format!("buf={}/{} rw={} ww={}", m.buf.len(), m.cap, rw, ww)
+}
+
+/// One task owning both halves of a channel, polled through `RunWithBudget` until it finishes. Every poll may use up
+/// the budget and ask to be polled again (the wake-up is then already there); a Pending without a wake-up is a lost
+/// wake-up, and a task that is still not done after far more polls than it has operations is stalled.
+fn run_task_probe(pi: usize, probe: &scenario::TaskProbe, h: &mut Hist, step: &mut u64, c: &mut Ctr) -> Option<Violation> {
+    use tokio::io::{AsyncReadExt, AsyncWriteExt};
+    let budget = NonZeroUsize::new(probe.budget.max(1)).unwrap();
+    let cap = NonZeroUsize::new(probe.cap.max(1)).unwrap();
+    let (mut tx, mut rx) = byte_channel(cap);
+    let total: usize = probe.chunks.iter().sum();
+    let chunks = probe.chunks.clone();
+    let read = probe.read.max(1);
+    let task = async move {
+        let writer = async move {
+            let mut next = 0u8;
+            for n in chunks {
+                let data: Vec<u8> = (0..n).map(|_| { next = next.wrapping_add(1); next }).collect();
+                if tx.write_all(&data).await.is_err() {
+                    return false;
+                }
+            }
+            tx.shutdown().await.is_ok()
+        };
+        let reader = async move {
+            let mut got = vec![];
+            let mut buf = vec![0u8; read];
+            loop {
+                match rx.read(&mut buf).await {
+                    Ok(0) => break,
+                    Ok(k) => got.extend_from_slice(&buf[..k]),
+                    Err(_) => return None,
+                }
+            }
+            Some(got)
+        };
+        futures::future::join(writer, reader).await
+    };
+    let mut task = std::pin::pin!(task.with_budget(budget));
+    let flag = Arc::new(CountWaker::default());
+    let waker = Waker::from(flag.clone());
+    let mut cx = Context::from_waker(&waker);
+    // Operations the task can possibly need: one write and one read per byte, plus shutdown and end of stream.
+    let limit = 8 * (total as u64 + 4) + 64;
+    let mut polls = 0u64;
+    let result = loop {
+        polls += 1;
+        *step += 1;
+        let before = flag.get();
+        match task.as_mut().poll(&mut cx) {
+            Poll::Ready(r) => break Some(r),
+            Poll::Pending => {
+                if flag.get() == before {
+                    h.start(b'T');
+                    h.put(pi as u64);
+                    h.commit(*step, "task", || format!("t{pi} pending without a wake-up after {polls} polls"));
+                    return Some(viol("task", "lost_wakeup", format!("task probe {pi} (budget {} cap {} chunks {:?} read {}): Pending at poll {polls} without a wake-up: the task would never run again", probe.budget, probe.cap, probe.chunks, probe.read)));
+                }
+                if polls >= limit {
+                    break None;
+                }
+            }
+        }
+    };
+    h.start(b'T');
+    h.put(pi as u64);
+    h.put(polls);
+    h.commit(*step, "task", || format!("t{pi} budget={} cap={} bytes={total} polls={polls} done={}", probe.budget, probe.cap, result.is_some()));
+    c.task_polls += polls;
+    match result {
+        None => Some(viol("live", "budgeted_task_stalls", format!("task probe {pi} (budget {} cap {} chunks {:?} read {}): the task woke itself and was polled {polls} times but never finished: no byte written became readable and the reader never saw the end of the stream", probe.budget, probe.cap, probe.chunks, probe.read))),
+        Some((ok, got)) => {
+            let want: Vec<u8> = (1..=total).map(|i| i as u8).collect();
+            if !ok || got.as_ref() != Some(&want) {
+                Some(viol("task", "bytes", format!("task probe {pi} (budget {} cap {} chunks {:?} read {}): wrote {want:?} (ok={ok}), read {got:?}", probe.budget, probe.cap, probe.chunks, probe.read)))
+            } else {
+                None
+            }
+        }
+    }
 }
 
 fn viol(rule: &str, sig: &str, detail: String) -> Violation {
@@ -887,6 +969,19 @@ impl World for ChanWorld {
                 }
             }
         }
+        // Whole tasks under the product's RunWithBudget wrapper.
+        let probes = sc.task_probes();
+        for (pi, probe) in probes.iter().enumerate() {
+            if harness_error.is_some() {
+                break;
+            }
+            c.task_probes += 1;
+            if let Some(v) = run_task_probe(pi, probe, &mut h, &mut step, &mut c) {
+                if !violations.iter().any(|x| x.sig == v.sig) {
+                    violations.push(v);
+                }
+            }
+        }
         let mut out = Outcome {
             violations,
             log_hash: h.log.hash(),
@@ -898,6 +993,8 @@ impl World for ChanWorld {
             ..Default::default()
         };
         out.count("seqs", c.seqs);
+        out.count("task_probes", c.task_probes);
+        out.count("task_probe_polls", c.task_polls);
         out.count("seqs_small_budget", c.seqs_small_budget);
         out.count("seqs_nontrivial", c.seqs_nontrivial);
         out.count("ops", c.ops);
